@@ -187,3 +187,37 @@ pub fn block_on<F: Future>(fut: F, poll_budget: usize) -> Result<(F::Output, usi
         }
     }
 }
+
+/// A `ScriptedReader` that stays observable (bytes handed out, polls) while a
+/// protocol object owns the `AsyncRead` handle.
+#[derive(Clone)]
+pub struct SharedReader(pub Arc<std::sync::Mutex<ScriptedReader>>);
+
+impl SharedReader {
+    pub fn new(data: Vec<u8>, sched: Schedule) -> Self {
+        SharedReader(Arc::new(std::sync::Mutex::new(ScriptedReader::new(data, sched))))
+    }
+    pub fn handed(&self) -> usize {
+        self.0.lock().unwrap().handed
+    }
+    pub fn polls(&self) -> usize {
+        self.0.lock().unwrap().polls
+    }
+    pub fn reads(&self) -> usize {
+        self.0.lock().unwrap().reads
+    }
+    pub fn pendings(&self) -> usize {
+        self.0.lock().unwrap().pendings
+    }
+}
+
+impl AsyncRead for SharedReader {
+    fn poll_read(
+        self: Pin<&mut Self>,
+        cx: &mut Context<'_>,
+        buf: &mut ReadBuf<'_>,
+    ) -> Poll<std::io::Result<()>> {
+        let mut g = self.0.lock().unwrap();
+        Pin::new(&mut *g).poll_read(cx, buf)
+    }
+}
